@@ -90,7 +90,7 @@ func init() {
 		"DESIGN.md §5 C08, §4.2, §4.6, §4.8",
 		[]string{"memory exhaustion by breadth of reference expansion (the guard bounds depth only)", "termination and crash freedom of encoding/json, yaml.v3, go-toml on arbitrary bytes", "nil-pointer dereferences other than those excluded by the error-check discipline"},
 		[]string{"Trees handed to the structural recursions are acyclic: decoders build trees and merge sources are private copies (C08.acyclic).", "Document.Parents is acyclic unless the API is misused by merging a *Document into itself."},
-		rulePanic, ruleRecursion, ruleMergeSourcesPrivate("C08.acyclic"), ruleCLIExit, ruleDroppedErrors)
+		rulePanic, ruleRecursion, ruleLoops, ruleMergeSourcesPrivate("C08.acyclic"), ruleCLIExit, ruleDroppedErrors)
 
 	mk("C09", "Evaluation is deterministic",
 		"order-sensitivity audit of every native map range (commutative writes / boolean fold / first-error shapes), contract of the sortedMap iterator, census of package-level state written outside init, census of nondeterminism sources reachable from evaluation, ownership rule against merging aliased trees",
